@@ -137,6 +137,33 @@ func skolemizeQuant(t *Term, pos bool) *Term {
 	return t
 }
 
+// withBound marks the terms (in post-order list `all`) that mention a quantifier-bound symbol.
+func withBound(all []*Term) map[*Term]bool {
+	bound := map[string]bool{}
+	for _, t := range all {
+		if t.kind == tQuant {
+			bound[t.Name] = true
+		}
+	}
+	has := map[*Term]bool{}
+	if len(bound) == 0 {
+		return has
+	}
+	for _, t := range all {
+		if t.kind == tSym && bound[t.Name] {
+			has[t] = true
+			continue
+		}
+		for _, a := range t.Args {
+			if has[a] {
+				has[t] = true
+				break
+			}
+		}
+	}
+	return has
+}
+
 func collectAll(roots []*Term) []*Term {
 	seen := map[*Term]int{}
 	var order []*Term
@@ -181,9 +208,13 @@ func (p *Program) buildScript(o *Obligation) *Script {
 			roots = append(roots, goal)
 		}
 		all := collectAll(roots)
+		hb := withBound(all)
 		changed := false
 		strTerms := map[string]*Term{}
 		for _, t := range all {
+			if hb[t] {
+				continue
+			}
 			if t.kind == tSym {
 				if d, ok := pwByR[t.Name]; ok && !usedPW[d] {
 					usedPW[d] = true
@@ -213,7 +244,12 @@ func (p *Program) buildScript(o *Obligation) *Script {
 		for d := range usedCP {
 			defRoots = append(defRoots, d.A)
 		}
-		for _, t := range collectAll(defRoots) {
+		defAll := collectAll(defRoots)
+		dhb := withBound(defAll)
+		for _, t := range defAll {
+			if dhb[t] {
+				continue
+			}
 			if t.Sort == SStr {
 				strTerms[t.String()] = t
 			}
